@@ -91,6 +91,43 @@ def chain_kerning_font(rng, writer="kern1"):
     return {"ufo": ufo, "q": 1, "groupsAbs": groups, "writer": writer}
 
 
+def chain_pairs_font(rng, k):
+    """Four or five left-to-right scripts, every one declared by a languagesystem statement and carrying attaching anchors;
+    plain glyph-to-glyph kerning pairs that straddle two scripts chain the scripts together, listed in EVERY relative order
+    over the cases (k): two disjoint links first and the bridging link last, the bridge first, a star, ..."""
+    import itertools
+
+    tags = {"latin": "latn", "cyrl": "cyrl", "grek": "grek", "armn": "armn", "geor": "geor"}
+    scripts = rng.sample(sorted(tags), 4 if k % 3 else 5)
+    gl = []
+    for sc in scripts:
+        gl += REPERTOIRE[sc][:2]
+    gl += [("period", 0x2E), ("acutecomb", 0x301)]
+    names = [n for n, _ in gl]
+    glyphs = {}
+    for n, cp in gl:
+        mark = n == "acutecomb"
+        anchors = [{"n": "_top", "x": 0, "y": 500 * PS}] if mark else ([] if n == "period" else [{"n": "top", "x": rng.randint(100, 300) * PS, "y": 600 * PS}])
+        glyphs[n] = {"cs": [box()], "comps": [], "anchors": anchors, "w": (0 if mark else 500) * PS, "h": 0, "u": [cp]}
+    first = {sc: REPERTOIRE[sc][0][0] for sc in scripts}
+    second = {sc: REPERTOIRE[sc][1][0] for sc in scripts}
+    links = [(scripts[j], scripts[j + 1]) for j in range(len(scripts) - 1)]
+    perms = list(itertools.permutations(links))
+    links = list(perms[k % len(perms)])
+    entries = []
+    for a, b in links:
+        l, r = (first[a], second[b]) if (k // len(perms)) % 2 == 0 else (second[b], first[a])
+        entries.append([l, r, rng.choice([-80, -40, 40, 60]) * 4 // 4 * 4])
+    own = [[second[sc], first[sc], rng.choice([-30, 24, 10, -50]) * 4] for sc in scripts if rng.random() < 0.5]
+    # in-script pairs before, after, or not at all
+    entries = {0: entries, 1: own + entries, 2: entries + own}[k % 3]
+    fea = "\n".join(["languagesystem DFLT dflt;"] + [f"languagesystem {tags[sc]} dflt;" for sc in scripts])
+    ufo = {"glyphs": glyphs, "order": names, "glyphNames": names,
+           "info": {"unitsPerEm": 1000, "ascender": 800, "descender": -200, "familyName": "PairChain", "styleName": "Regular"},
+           "kerning": entries, "kernScale": 4, "groups": [], "fea": fea, "lib": {}}
+    return {"ufo": ufo, "q": 1, "groupsAbs": [], "writer": "kern1", "declared": ["DFLT"] + [tags[sc] for sc in scripts]}
+
+
 def kerning_font(rng, writer="kern1", lang_first=False):
     """abstract ufo + kerning description; values at scale 4 (quarter units).
     lang_first: Latin + marks, a non-default language of 'latn' declared before (or without) its default language system,
